@@ -473,6 +473,12 @@ class HyReader(Reader):
         in_named_escape = False
         for c in self.chars():
             s.append(c)
+            if in_named_escape:
+                # Inside "\N{...}", a closing brace ends the escape, not
+                # a format spec or a field.
+                if c == "}":
+                    in_named_escape = False
+                continue
             # check if c is closing
             n_closing_chars = closing(c)
             if n_closing_chars:
@@ -490,9 +496,7 @@ class HyReader(Reader):
                         s.pop()
                         break
                 elif c == "}":
-                    if in_named_escape:
-                        in_named_escape = False
-                    elif not self.peek_and_getc("}"):
+                    if not self.peek_and_getc("}"):
                         raise SyntaxError(f"{fstring_mode}-string: single '}}' is not allowed")
         res = "".join(s).replace("\x0d\x0a", "\x0a").replace("\x0d", "\x0a")
 
